@@ -314,3 +314,66 @@ func PropagationChain(t *rapid.T, minN, maxN int) (int, [][]int) {
 	}
 	return n, rapid.Permutation(cls).Draw(t, "clauseOrder")
 }
+
+// CliqueRich draws a CNF rich in binary clauses, the food of at-most-one detection: complete
+// cliques of 2..5 literals (one or mixed polarity), cliques minus one edge, overlapping cliques,
+// repeated binary clauses, loose binary clauses, a few longer clauses; clause order shuffled.
+// It returns the clauses and the labels of the blocks used.
+func CliqueRich(t *rapid.T, n int) ([][]int, []string) {
+	clique := func(ls []int) [][]int {
+		var out [][]int
+		for i := range ls {
+			for j := i + 1; j < len(ls); j++ {
+				out = append(out, []int{-ls[i], -ls[j]})
+			}
+		}
+		return out
+	}
+	var cls [][]int
+	var shapes []string
+	for b, blocks := 0, rapid.IntRange(1, 4).Draw(t, "blocks"); b < blocks; b++ {
+		switch rapid.IntRange(0, 6).Draw(t, "block") {
+		case 0, 1:
+			k := Uniform(t, 2, min(5, n), "k")
+			ls := DistinctLits(t, n, k, "q")
+			if rapid.Bool().Draw(t, "allPositive") {
+				for i := range ls {
+					ls[i] = abs(ls[i])
+				}
+			}
+			cls = append(cls, clique(ls)...)
+			shapes = append(shapes, "clique")
+		case 2:
+			k := Uniform(t, 3, min(5, n), "k")
+			cl := clique(DistinctLits(t, n, k, "q"))
+			i := Uniform(t, 0, len(cl)-1, "drop")
+			cls = append(cls, append(cl[:i:i], cl[i+1:]...)...)
+			shapes = append(shapes, "clique-minus-edge")
+		case 3:
+			k := Uniform(t, 3, min(6, n), "k")
+			ls := DistinctLits(t, n, k, "q")
+			cls = append(cls, clique(ls[:k-1])...)
+			cls = append(cls, clique(ls[1:])...)
+			shapes = append(shapes, "overlapping-cliques")
+		case 4:
+			cl := DistinctLits(t, n, 2, "r")
+			cls = append(cls, cl, append([]int{}, cl...))
+			shapes = append(shapes, "repeated-binary")
+		case 5:
+			for i, k := 0, rapid.IntRange(1, 4).Draw(t, "loose"); i < k; i++ {
+				cls = append(cls, DistinctLits(t, n, 2, "b"))
+			}
+			shapes = append(shapes, "loose-binaries")
+		default:
+			for i, k := 0, rapid.IntRange(1, 3).Draw(t, "long"); i < k; i++ {
+				cls = append(cls, DistinctLits(t, n, Uniform(t, 3, min(4, n), "len"), "l"))
+			}
+			shapes = append(shapes, "long-clauses")
+		}
+	}
+	if Chance(t, 1, 6, "unit") {
+		cls = append(cls, []int{Lit(t, n, "u")})
+		shapes = append(shapes, "unit")
+	}
+	return rapid.Permutation(cls).Draw(t, "order"), shapes
+}
